@@ -476,7 +476,7 @@ pub fn run(args: &Args) -> i32 {
          {}-operation core alphabet, each transition executed on the real ZipWriter (state rebuilt by replaying the history) in lock step with the \
          reference model; states de-duplicated on fingerprint = (hook mode flags, inner kind, files.len, stats, sink bytes+position, model state). \
          Every step's result class is compared with the model (MustOk / MustErr / Unspecified); every successful finish() is verified through the crate \
-         reader and the independent parser; drop is compared with finish from every state. distinct_nontrivial = distinct fingerprints.",
+         reader and the independent parser; drop is compared with finish from every state; additionally every extra-data header ID 0..=65535 singly (explicit and implicit end). distinct_nontrivial = distinct fingerprints.",
         full.len(),
         core.len()
     );
@@ -497,6 +497,33 @@ pub fn run(args: &Args) -> i32 {
     crate::diag!("  [C12] core alphabet depth {d_core}: states {} transitions {} per level {:?} at {:.1}s", r2.states, r2.transitions, r2.per_level, ctx.elapsed());
     if capped2 {
         ctx.cap(format!("core-alphabet search stopped at {} states", r2.states));
+    }
+    // every extra-data header ID, singly, through an explicit and an implicit end ("reserved ... extra data returns an error")
+    {
+        let src_bytes: Vec<Vec<u8>> = srcs.iter().map(|s| s.bytes.clone()).collect();
+        let srcs_r = &srcs;
+        let s = par_for(65536 * 2, 256, |t, st| {
+            let id = (t / 2) as u16;
+            let explicit = t % 2 == 0;
+            let mut hist = vec![Call::StartExtra { name: "x".into(), opts: FOpts::m(8) }, Call::Write(rec(id, b"v"))];
+            let mut names = vec!["start_extra", "write-record"];
+            if explicit {
+                hist.push(Call::EndExtra);
+                names.push("end_extra");
+            }
+            hist.push(Call::Write(b"xyz".to_vec()));
+            names.push("write-xyz");
+            hist.push(Call::Finish);
+            names.push("finish");
+            // the first two steps are covered by the search; judge from the call that ends the extra data on
+            for k in 3..=hist.len() {
+                let run = execute(&hist[..k], &src_bytes);
+                st.evals += 1;
+                check_last(&run, &hist[..k], &names[..k], srcs_r, &src_bytes, st, (4 << 56) | t << 4 | k as u64);
+            }
+        });
+        ctx.stats.merge(s);
+        ctx.bound("header_ids_singly", json!("all 65536 header IDs x {explicit end, implicit end by the next write/finish}"));
     }
     ctx.bound("states_per_level_full", json!(r1.per_level));
     ctx.bound("states_per_level_core", json!(r2.per_level));
